@@ -123,9 +123,13 @@ func ruleStructDescriptor(c *Ctx) {
 	info := fn.Pkg.TypesInfo
 	recv := recvObj(info, fn.Decl)
 	var rng *ast.RangeStmt
+	var rngs []*ast.RangeStmt
 	ast.Inspect(fn.Decl.Body, func(n ast.Node) bool {
-		if r, ok := n.(*ast.RangeStmt); ok && rng == nil {
-			rng = r
+		if r, ok := n.(*ast.RangeStmt); ok {
+			if rng == nil {
+				rng = r
+			}
+			rngs = append(rngs, r)
 		}
 		return true
 	})
@@ -142,79 +146,87 @@ func ruleStructDescriptor(c *Ctx) {
 	if rng == nil {
 		return
 	}
-	var fvar types.Object
-	if id, ok := rng.Value.(*ast.Ident); ok {
-		fvar = info.Defs[id]
-	}
-	var ivar types.Object
-	if id, ok := rng.Key.(*ast.Ident); ok {
-		ivar = info.Defs[id]
-	}
-	isFField := func(e ast.Expr, field string) bool {
-		sel, ok := ast.Unparen(e).(*ast.SelectorExpr)
-		if !ok || sel.Sel.Name != field {
-			return false
-		}
-		id, ok := sel.X.(*ast.Ident)
-		return ok && info.Uses[id] == fvar
-	}
-	// a local the element is built in before it is stored: `e := …; e.Index = …; d.Elements[i] = e`
-	var elemLocal types.Object
-	elemLocalStored := -1
-	var isElemI func(e ast.Expr) bool
-	isElemI = func(e ast.Expr) bool { // d.Elements[i]
-		if id, ok := ast.Unparen(e).(*ast.Ident); ok && elemLocal != nil {
-			return info.Uses[id] == elemLocal || info.Defs[id] == elemLocal
-		}
-		ix, ok := ast.Unparen(e).(*ast.IndexExpr)
-		if !ok {
-			return false
-		}
-		id, ok := ix.Index.(*ast.Ident)
-		if !ok || info.Uses[id] != ivar {
-			return false
-		}
-		sel, ok := ix.X.(*ast.SelectorExpr)
-		return ok && sel.Sel.Name == "Elements"
-	}
-	for i, st := range rng.Body.List {
-		as, ok := st.(*ast.AssignStmt)
-		if !ok || len(as.Lhs) != 1 || len(as.Rhs) != 1 {
-			continue
-		}
-		if id, ok := ast.Unparen(as.Rhs[0]).(*ast.Ident); ok && isElemI(as.Lhs[0]) {
-			if v, ok := info.Uses[id].(*types.Var); ok && v.Parent() != nil && v.Parent() != v.Pkg().Scope() {
-				elemLocal, elemLocalStored = v, i
-			}
-		}
-	}
 	got := map[string]bool{}
-	for i, st := range rng.Body.List {
-		as, ok := st.(*ast.AssignStmt)
-		if !ok || len(as.Lhs) != 1 || len(as.Rhs) != 1 {
+	// the element loop may be split into several passes over the same field list
+	first := rng
+	for _, rng := range rngs {
+		if !isRecvField(rng.X, "fields") {
 			continue
 		}
-		if elemLocal != nil && i >= elemLocalStored {
-			continue // the store of the finished element (and anything after it does not reach the descriptor)
+		var fvar types.Object
+		if id, ok := rng.Value.(*ast.Ident); ok {
+			fvar = info.Defs[id]
 		}
-		lhs, rhs := as.Lhs[0], as.Rhs[0]
-		if isElemI(lhs) {
-			if call, ok := rhs.(*ast.CallExpr); ok {
-				if sel, ok := call.Fun.(*ast.SelectorExpr); ok && sel.Sel.Name == "Descriptor" && isFField(sel.X, "codec") {
-					got["elem"] = true
+		var ivar types.Object
+		if id, ok := rng.Key.(*ast.Ident); ok {
+			ivar = info.Defs[id]
+		}
+		isFField := func(e ast.Expr, field string) bool {
+			sel, ok := ast.Unparen(e).(*ast.SelectorExpr)
+			if !ok || sel.Sel.Name != field {
+				return false
+			}
+			id, ok := sel.X.(*ast.Ident)
+			return ok && info.Uses[id] == fvar
+		}
+		// a local the element is built in before it is stored: `e := …; e.Index = …; d.Elements[i] = e`
+		var elemLocal types.Object
+		elemLocalStored := -1
+		var isElemI func(e ast.Expr) bool
+		isElemI = func(e ast.Expr) bool { // d.Elements[i]
+			if id, ok := ast.Unparen(e).(*ast.Ident); ok && elemLocal != nil {
+				return info.Uses[id] == elemLocal || info.Defs[id] == elemLocal
+			}
+			ix, ok := ast.Unparen(e).(*ast.IndexExpr)
+			if !ok {
+				return false
+			}
+			id, ok := ix.Index.(*ast.Ident)
+			if !ok || info.Uses[id] != ivar {
+				return false
+			}
+			sel, ok := ix.X.(*ast.SelectorExpr)
+			return ok && sel.Sel.Name == "Elements"
+		}
+		for i, st := range rng.Body.List {
+			as, ok := st.(*ast.AssignStmt)
+			if !ok || len(as.Lhs) != 1 || len(as.Rhs) != 1 {
+				continue
+			}
+			if id, ok := ast.Unparen(as.Rhs[0]).(*ast.Ident); ok && isElemI(as.Lhs[0]) {
+				if v, ok := info.Uses[id].(*types.Var); ok && v.Parent() != nil && v.Parent() != v.Pkg().Scope() {
+					elemLocal, elemLocalStored = v, i
 				}
 			}
-			continue
 		}
-		if sel, ok := lhs.(*ast.SelectorExpr); ok && isElemI(sel.X) {
-			switch sel.Sel.Name {
-			case "Index":
-				got["index"] = isFField(rhs, "index")
-			case "Name":
-				got["name"] = isFField(rhs, "name")
+		for i, st := range rng.Body.List {
+			as, ok := st.(*ast.AssignStmt)
+			if !ok || len(as.Lhs) != 1 || len(as.Rhs) != 1 {
+				continue
+			}
+			if elemLocal != nil && i >= elemLocalStored {
+				continue // the store of the finished element (and anything after it does not reach the descriptor)
+			}
+			lhs, rhs := as.Lhs[0], as.Rhs[0]
+			if isElemI(lhs) {
+				if call, ok := rhs.(*ast.CallExpr); ok {
+					if sel, ok := call.Fun.(*ast.SelectorExpr); ok && sel.Sel.Name == "Descriptor" && isFField(sel.X, "codec") {
+						got["elem"] = true
+					}
+				}
+				continue
+			}
+			if sel, ok := lhs.(*ast.SelectorExpr); ok && isElemI(sel.X) {
+				switch sel.Sel.Name {
+				case "Index":
+					got["index"] = isFField(rhs, "index")
+				case "Name":
+					got["name"] = isFField(rhs, "name")
+				}
 			}
 		}
 	}
+	rng = first
 	c.Oblige("T.desc-struct", got["elem"], rng.Pos(), fn.Name(), "Elements[i] = f.codec.Descriptor()", "each element is the field codec's own descriptor", nil)
 	c.Oblige("T.desc-struct", got["index"], rng.Pos(), fn.Name(), "Elements[i].Index = f.index", "each element carries the field's plenc index", nil)
 	c.Oblige("T.desc-struct", got["name"], rng.Pos(), fn.Name(), "Elements[i].Name = f.name", "each element carries the field's name", nil)
